@@ -335,7 +335,17 @@ class FakeSelector:
         pass
 
 
+_INIT_ATTRS: dict = {}
+
+
 def init_attrs(cls, methods=('__init__',)) -> set[str]:
+    key = (cls, tuple(methods))
+    if key not in _INIT_ATTRS:
+        _INIT_ATTRS[key] = _init_attrs(cls, methods)
+    return _INIT_ATTRS[key]
+
+
+def _init_attrs(cls, methods=('__init__',)) -> set[str]:
     """Names assigned as `self.X = ...` in the given methods (from the AST of
     the live source) - the harness asserts it fills every one of them."""
     out = set()
